@@ -1075,7 +1075,8 @@ QUICK_PLAN = [
     ("sf:U1", 1, 2, "full"), ("sf:Z2", 2, 1, "full"), ("sff:Z2", 1, 2, "full"), ("s12:dense", 2, 1, "full"),
     ("sf:Z2", 1, 3, "full"), ("sf:U1", 3, 1, "full"),
     ("sf:U1", 2, 2, "full"), ("sf:Z2", 2, 2, "full"), ("s12:Z2", 2, 2, "full"), ("sff:U1xU1xZ2", 2, 2, "tree"),
-    ("sf:Z2", 2, 3, "tree"), ("sf:U1", 3, 2, "full"),
+    ("sf:Z2", 2, 3, "tree"), ("sf:U1", 3, 2, "full"), ("sff:Z2", 2, 2, "full"), ("s12:dense", 2, 3, "full"),
+    ("sf:Z2", 3, 2, "full"), ("sff:U1xU1", 2, 2, "tree"),
 ]
 
 CASE_LIMIT_QUICK = 25
